@@ -66,3 +66,79 @@ func VerifC04_L1(v *VerifV) {
 		v.Cover("armed")
 	}
 }
+
+// VerifC04_L3: votes drive progress. The node is in round R at the prevote or precommit step;
+// the votes of the three other validators (type prevote or precommit, round R or R+1, each for
+// nil / A / B or absent) arrive one by one through the real addVote. Afterwards, whenever more
+// than 2/3 of the power has voted in a round:
+//   - prevotes of the current round, node still at the prevote step: the node has moved on
+//     (precommitted on a polka) or waits with a prevote timeout armed;
+//   - precommits of the current round: the node has committed / moved to the next round, or a
+//     precommit timeout is armed (split precommits must not park the round);
+//   - votes of a later round: the node has skipped to that round.
+func VerifC04_L3(v *VerifV) {
+	verifV = v
+	n := verifMkNode(v)
+	cs := n.cs
+	cs.blockOperations = verifBlockOps{}
+	R := uint32(1 + v.Choice("round", 2))
+	cs.Round = R
+	cs.Step = cstypes.RoundStepPrevote
+	if v.Choice("step", 2) == 1 {
+		cs.Step = cstypes.RoundStepPrecommit
+	}
+	cs.Votes.SetRound(R + 1)
+	t := kproto.PrevoteType
+	if v.Choice("type", 2) == 1 {
+		t = kproto.PrecommitType
+	}
+	vr := R + uint32(v.Choice("vote-round", 2))
+	step0 := cs.Step
+	cast := 0
+	targets := map[int]int{}
+	for i := 1; i < 4; i++ {
+		blk := v.Choice("target", 4) // 0 nil, 1 A, 2 B, 3 absent
+		if blk == 3 {
+			continue
+		}
+		_, err := cs.addVote(n.verifVoteFrom(v, i, t, vr, blk), "peer")
+		v.Assert(err == nil, "C04.L3.addvote-error")
+		cast++
+		targets[blk]++
+	}
+	if cast < 3 {
+		v.Cover("below-two-thirds")
+		return // 2 of 4 is not more than 2/3
+	}
+	v.Cover("two-thirds-any")
+	majority := false
+	for _, c := range targets {
+		if c == 3 {
+			majority = true
+		}
+	}
+	if !majority {
+		v.Cover("split")
+	}
+	armed := func(step cstypes.RoundStepType) bool {
+		for _, ti := range n.ticker.scheduled {
+			if ti.Height == verifH && ti.Round == R && ti.Step == step {
+				return true
+			}
+		}
+		return false
+	}
+	switch {
+	case vr > R:
+		v.Assert(cs.Round >= vr || cs.Height > verifH || cs.Step == cstypes.RoundStepCommit, "C04.L3.no-round-skip-on-two-thirds-of-later-round")
+		v.Cover("later-round")
+	case t == kproto.PrevoteType && step0 == cstypes.RoundStepPrevote:
+		moved := cs.Round > R || cs.Step > cstypes.RoundStepPrevoteWait
+		v.Assert(moved || (cs.Step == cstypes.RoundStepPrevoteWait && armed(cstypes.RoundStepPrevoteWait)), "C04.L3.prevotes-two-thirds-any-but-no-progress-and-no-timeout")
+		v.Cover("prevotes-current-round")
+	case t == kproto.PrecommitType:
+		moved := cs.Round > R || cs.Height > verifH || cs.Step == cstypes.RoundStepCommit
+		v.Assert(moved || armed(cstypes.RoundStepPrecommitWait), "C04.L3.precommits-two-thirds-any-but-no-progress-and-no-timeout")
+		v.Cover("precommits-current-round")
+	}
+}
